@@ -788,6 +788,17 @@ def applyEnv (s : St) : EnvAct → St
     | some _ => swap (applyEnv (swap s j) a) j
     | none => s
 
+/-- OUTSIDE the environment `Env` of the theorems (a second incarnation of the claim: `Init`/`Inv` speak about
+ONE object whose reference name is set-once): the claim, gone, is created again under the same name — a new
+object without reference and finalizer. The version history `hist` keeps the versions of the old incarnation,
+so a cached read (`Req.getClaim (some i)`) may still serve them; `exec` answers an Update that carries the
+resourceVersion of such a version with Conflict. Replayed by the driver for the scripted action `claimCreate`;
+covered by the correspondence and the direct monitors, not by `driver_runs_are_executions`. -/
+def recreateClaim (s : St) : St :=
+  match s.claim with
+  | some _ => s
+  | none => (pushClaim s ⟨0, s.me, none, false, false, false⟩).1
+
 /-! ### system: one claim-controller thread, the environment, crashes -/
 
 structure Sys where
